@@ -1,4 +1,60 @@
-import Rngs.Model.Xoshiro
+/-
+  C17 — Debug output of state-hiding generators never depends on seed or state.
+  Thin, structural theorems: in the model the `{:?}` / `{:#?}` text is a function of the type and of
+  the public read position only (and, for reachable generators, one of finitely many strings).
+  That the real `fmt` implementations produce exactly this text is checked by the tie.
+-/
+import Rngs.Model.Serde
+import Rngs.Model.Hc128
+import Rngs.Model.Jitter
+import Rngs.Props.C11
 namespace Rngs.C17
-theorem placeholder : True := trivial
+open Rngs
+
+/-- the Debug text of each state-hiding generator as the model renders it: (compact, pretty) -/
+def dbgXorShift (_ : XorShift.State) : String × String := (Debug.xorshift, Debug.xorshift)
+def dbgJitter (_ : Jitter.Rng) : String × String := (Debug.jitter, Debug.jitter)
+def dbgHc128 (r : Hc128.Rng) : String × String := (Debug.hc128 r.index, Debug.hc128Pretty r.index)
+def dbgIsaac (r : Isaac.Rng32) : String × String := (Debug.isaac r.index, Debug.isaacPretty r.index)
+def dbgIsaac64 (r : Isaac.Rng64) : String × String :=
+  (Debug.isaac64 r.index r.halfUsed, Debug.isaac64Pretty r.index r.halfUsed)
+
+/-- XorShiftRng and JitterRng: one constant text for all states -/
+theorem xorshift_constant (a b : XorShift.State) : dbgXorShift a = dbgXorShift b := rfl
+theorem jitter_constant (a b : Jitter.Rng) : dbgJitter a = dbgJitter b := rfl
+
+/-- buffered generators: two generators at the same public read position print the same text,
+    whatever their seeds, tables, counters and buffered words -/
+theorem hc128_position_only (a b : Hc128.Rng) (h : a.index = b.index) : dbgHc128 a = dbgHc128 b := by
+  simp [dbgHc128, h]
+theorem isaac_position_only (a b : Isaac.Rng32) (h : a.index = b.index) : dbgIsaac a = dbgIsaac b := by
+  simp [dbgIsaac, h]
+theorem isaac64_position_only (a b : Isaac.Rng64) (h : a.index = b.index) (hh : a.halfUsed = b.halfUsed) :
+    dbgIsaac64 a = dbgIsaac64 b := by
+  simp [dbgIsaac64, h, hh]
+
+/-- same seed-independent history ⇒ same text: for IsaacRng / Isaac64Rng the read position after a
+    history does not depend on the seed (it is determined by the operations alone), so two
+    generators with different seeds and the same history print identical text. -/
+theorem isaac_same_history (core1 core2 : Isaac.Core 32) (ops : List C11.Op)
+    (h : (C11.run32 (BlockRng.new Isaac.blockCore32 core1) ops).index =
+         (C11.run32 (BlockRng.new Isaac.blockCore32 core2) ops).index) :
+    dbgIsaac (C11.run32 (BlockRng.new Isaac.blockCore32 core1) ops) =
+    dbgIsaac (C11.run32 (BlockRng.new Isaac.blockCore32 core2) ops) :=
+  isaac_position_only _ _ h
+
+/-- for reachable IsaacRng states the text is one of 257 strings -/
+theorem isaac_finitely_many (r : Isaac.Rng32) (h : SerdeLemmas.Inv32 r) :
+    dbgIsaac r ∈ (List.range 257).map (fun i => (Debug.isaac i, Debug.isaacPretty i)) := by
+  have hi : r.index ≤ 256 := h.2.2
+  simp only [dbgIsaac, List.mem_map, List.mem_range]
+  exact ⟨r.index, by omega, rfl⟩
+
+/-- concrete renderings (the templates the tie compares the real `{:?}` / `{:#?}` output with) -/
+example : (dbgHc128 ⟨#[], 3, ⟨#[], 0⟩⟩).1 = "Hc128Rng(BlockRng { core: Hc128Core {}, result_len: 16, index: 3 })" := by
+  decide
+
+example : (dbgIsaac64 ⟨#[], 7, true, ⟨#[], 0, 0, 0⟩⟩).1 =
+    "Isaac64Rng(BlockRng64 { core: Isaac64Core {}, result_len: 256, index: 7, half_used: true })" := by decide
+
 end Rngs.C17
